@@ -82,7 +82,8 @@ def rule_a(ctx, cr):
     ex = cr.need_fn("mach::runtime::Runtime::execute")
     lp = cr.need_fn("mach::runtime::Runtime::execute_loop")
     ctx.touch(ex, lp)
-    li = [d["place"]["local"] for d in ex.debug if d["name"] == "iterations" and "place" in d]
+    # the budget is the usize parameter (position 2 after self), whatever it is called
+    li = [l for l in range(1, ex.arg_count + 1) if ex.local_ty(l) == "usize"]
     if ctx.check(len(li) == 1, "C13.a", "execute/iterations-arg", ex.span, "argument found"):
         us = forward_slice(ex, li[0])
         bad = [u for u in us if not (u[0] == "call" and u[2].get("callee") == lp.path)
@@ -91,7 +92,7 @@ def rule_a(ctx, cr):
                   "iterations is only passed on to execute_loop",
                   "execute() reads the instruction budget for something other than forwarding it "
                   "(%s): behaviour depends on the quantum" % [(u[0], u[1]) for u in bad][:3])
-    ll = [d["place"]["local"] for d in lp.debug if d["name"] == "iterations" and "place" in d]
+    ll = [l for l in range(1, lp.arg_count + 1) if lp.local_ty(l) == "usize"]
     if not ctx.check(len(ll) == 1, "C13.a", "execute_loop/iterations-arg", lp.span, "argument found"):
         return
     us = forward_slice(lp, ll[0])
